@@ -20,7 +20,7 @@ RULE = ('(1) result monitor: f64 and &f64 parallel iterators are collected into 
         'estimator and is given the crate\'s own exported impl_from_par_iterator!; it checks online that every fold leaf absorbs a '
         'contiguous ascending index run, every merge joins adjacent runs in order (or an empty side), every item is absorbed exactly '
         'once, and records the split / merge tree; the monitor re-executes the recorded tree sequentially with the real type and '
-        'requires the parallel result to be bit-identical to that replay. (3, thorough) the same under Miri with many seeds (each seed '
+        'requires the parallel result to be bit-identical to that replay. (3, thorough) the same on a ThreadSanitizer build (real threads, data-race detection) and under Miri with many seeds (each seed '
         'a different deterministic schedule, data-race detector on). distinct_nontrivial = distinct (type, data, pool, split limits, '
         'mode, recorded tree) executions with n >= 2.')
 ASSUME = ['CPython int/Fraction arithmetic is exact', 'driver faithfully prints accessor bit patterns',
@@ -429,6 +429,45 @@ def miri_leg(seed, nseeds, res):
                         break
 
 
+def tsan_leg(seed, res):
+    """The same kind of workload on a ThreadSanitizer build of the driver (std rebuilt with -Zsanitizer=thread): real threads,
+    many more schedules than the Miri leg, data-race detection on.  The results are judged as usual."""
+    binary = build('tsan')
+    rng = random.Random(seed + 99)
+    cases, plan = [], []
+    for i in range(400):
+        n = rng.choice([0, 1, 2, 5, 17, 64, 200, 1000, 5000])
+        xs = gen_data(rng, n, distinct=True)
+        typ = rng.choice(TYPES)
+        t = rng.choice([typ, 'Probe' + typ])
+        th, lo, hi, mode, dseed, fseed = configs(rng, n)
+        c = Case('ts%d' % i, t, meta={'threads': th, 'min_len': lo, 'max_len': hi, 'mode': mode, 'delay_seed': dseed, 'filter_seed': fseed, 'n': n})
+        marks = []
+        for r_ in range(3):
+            c.op('P', r_, th, lo, hi, mode, dseed, fseed, xs)
+            marks.append(c.op('O', r_))
+        cases.append(c)
+        plan.append((c, t, [x for x in xs if keep(x, fseed)], marks))
+    try:
+        logs = common.run_driver(binary, ''.join(c.text() for c in cases), timeout=3600, sanitizer=True)
+    except common.SanitizerReport as e:
+        res.violation(PROP, 'tsan:data-race', 'ThreadSanitizer reported during parallel collects: %s' % str(e)[:3000], None, 'tsan')
+        return
+    for c, t, kept, marks in plan:
+        recs = logs.get(c.id, [])
+        by_op = {r.op: r for r in recs if r.kind == 'o'}
+        for r in recs:
+            if r.kind in ('p', 'e', 'd'):
+                res.violation(PROP, '%s:%s' % (mc.base_type(t), 'panic' if r.kind == 'p' else 'harness'), 'under TSan: op %d -> %s' % (r.op, r.rest), c, 'tsan')
+        for opi in marks:
+            if opi in by_op:
+                judge_result(t, kept, by_op[opi].kv, res, c, 'tsan', '(ThreadSanitizer build, %d threads)' % c.meta['threads'])
+                res.count('tsan_collects')
+                if t.startswith('Probe') and val(by_op[opi].kv['probe_bad']) != '-':
+                    res.violation(PROP, 'probe:%s' % val(by_op[opi].kv['probe_bad']).split(':')[0], 'schedule probe under TSan: %s' % val(by_op[opi].kv['probe_bad'])[:200], c, 'tsan')
+    res.count('tsan_runs')
+
+
 def run(tier, seed):
     t0 = time.time()
     total = Result()
@@ -464,6 +503,7 @@ def run(tier, seed):
                                   'cfg_per_data': 2, 'repeats': 2, 'probe_max_n': 0, 'seed': seed * 31 + i})
             total.merge(common.run_shards(shard, descs, procs=4))
         if tier == 'thorough':
+            tsan_leg(seed, total)
             miri_leg(seed, 16, total)
     except common.Inconclusive as e:
         total.inconclusive.append(str(e))
@@ -472,5 +512,6 @@ def run(tier, seed):
             'collects_with_delay_injection': 50, 'collects_by_ref': 50, 'collects_by_value': 50, 'distinct_merge_trees': 20}
     if tier == 'thorough':
         need['miri_collects'] = 50
+        need['tsan_collects'] = 500
     return common.finish(PROP, tier, seed, total, RULE, t0, ASSUME, min_events=need,
-                         extra={'builds': [v for v, _ in variants] + (['miri'] if tier == 'thorough' else []), 'lengths': lengths + big})
+                         extra={'builds': [v for v, _ in variants] + (['tsan', 'miri'] if tier == 'thorough' else []), 'lengths': lengths + big})
